@@ -118,6 +118,9 @@ def make_classes(rec, spec):
     class Strict(Base):
         dep = Attached(Base, mandatory=False)
 
+    class Must(Base):
+        dep = Attached(mandatory=True)
+
     class Com(Communicator):
         uri = Property('uri of the device', StringType(), default='')
 
@@ -166,7 +169,7 @@ def make_classes(rec, spec):
         def scanModules(self):
             yield 'scanned', {'cls': Base, 'description': 'scanned module'}
     Base.flags = {m['name']: m for m in spec['mods']}
-    return {'Base': Base, 'NoPoll': NoPoll, 'Other': Other, 'Strict': Strict, 'WithIO': WithIO, 'Pin': Pin}
+    return {'Base': Base, 'NoPoll': NoPoll, 'Other': Other, 'Strict': Strict, 'Must': Must, 'WithIO': WithIO, 'Pin': Pin}
 
 
 def run_node(spec):
@@ -187,8 +190,8 @@ def run_node(spec):
         if m.get('dep') and m.get('dep_by') == 'class' and m.get('cls', 'Base') not in ('Other', 'Pin'):
             # the attachment is given by a subclass overriding the property with a bare value, not by the configuration
             c['cls'] = type(c['cls'].__name__ + 'Fixed', (c['cls'],), {'dep': m['dep']})
-        elif m.get('dep'):
-            c['dep'] = {'value': m['dep']}
+        elif m.get('dep') or m.get('dep') == '' and m.get('cls') == 'Must':
+            c['dep'] = {'value': m['dep']}     # '' = configured, but empty
         if m.get('opt'):
             c['opt'] = {'value': m['opt']}
         if m.get('write') is not None and m.get('cls', 'Base') not in ('Other', 'Pin'):
@@ -293,11 +296,15 @@ def expected_refusal(spec):
             continue
         if m.get('fail'):
             reasons.append(('init-raises', {m['name']}))
+        if m.get('cls') == 'Must' and m.get('dep') is None:
+            reasons.append(('missing', {m['name']}))     # a mandatory attachment which is not configured at all
         if m.get('touch', 'init') not in ('early', 'init'):
             continue
         for slot in ('dep', 'opt'):
             t = m.get(slot)
             if not t:
+                if slot == 'dep' and m.get('cls') == 'Must' and t == '':
+                    reasons.append(('missing', {m['name']}))     # ... or configured as empty: missing as well
                 continue
             if t not in mods and t != 'scanned':
                 reasons.append(('missing', {m['name']}))
@@ -315,6 +322,8 @@ def late_trouble(spec):
     for m in spec['mods']:
         if m.get('cls', 'Base') in ('Other', 'Pin') or m.get('touch', 'init') != 'start':
             continue
+        if m.get('cls') == 'Must' and m.get('dep') == '':
+            return True
         for slot in ('dep', 'opt'):
             t = m.get(slot)
             if t and ((t not in mods and t != 'scanned') or (slot == 'dep' and m.get('cls') == 'Strict' and mods.get(t, {}).get('cls') in ('Other', 'Pin'))):
@@ -407,7 +416,7 @@ def check(ctx, spec):
     ctx.ok('writes-before-first-poll')
     # ready only after every poll thread finished its first round (or timed out)
     for m in spec['mods']:
-        if m.get('cls', 'Base') in ('Base', 'Strict', 'WithIO') and not m.get('slow'):
+        if m.get('cls', 'Base') in ('Base', 'Strict', 'Must', 'WithIO') and not m.get('slow'):
             name = m['name']
             first = [n for n, e in enumerate(events) if e[0] == 'read-done' and e[1] == name]
             anyslow = any(x.get('slow') for x in spec['mods'])
@@ -486,12 +495,12 @@ def gen_spec(draw):
     names = [chr(97 + i) for i in range(n)]
     mods = []
     for name in names:
-        cls = draw(st.sampled_from(['Base', 'Base', 'Base', 'NoPoll', 'Strict', 'WithIO', 'Other', 'Pin']))
+        cls = draw(st.sampled_from(['Base', 'Base', 'Base', 'NoPoll', 'Strict', 'Must', 'WithIO', 'Other', 'Pin']))
         if cls == 'Pin' and any(m.get('cls') == 'Pin' for m in mods):
             cls = 'Base'
         m = {'name': name, 'cls': cls}
         if cls not in ('Other', 'Pin'):
-            m['dep'] = draw(st.sampled_from([None, None] + names + ['nix']))
+            m['dep'] = draw(st.sampled_from([None, None] + names + ['nix'] + (names + ['', ''] if cls == 'Must' else [])))
             if m['dep'] and draw(st.integers(0, 3)) == 0:
                 m['dep_by'] = 'class'
             m['opt'] = draw(st.sampled_from([None, None, None] + names))
@@ -521,8 +530,8 @@ def run_shard(ctx, shard):
 
 def run_case(ctx, case):
     try:
-        ok = case['mods'] and len({m['name'] for m in case['mods']}) == len(case['mods']) and \
-            all(m.get('cls', 'Base') in ('Base', 'NoPoll', 'Other', 'Strict', 'WithIO', 'Pin') for m in case['mods'])
+        ok = case['mods'] and len({m['name'] for m in case['mods']}) == len(case['mods']) and all(m['name'] for m in case['mods']) and \
+            all(m.get('cls', 'Base') in ('Base', 'NoPoll', 'Other', 'Strict', 'Must', 'WithIO', 'Pin') for m in case['mods'])
     except (KeyError, TypeError):
         ok = False
     if ok:
